@@ -18,16 +18,19 @@ structure Pushes (db : Db) (s s' : JState) (es : List Entry) : Prop where
   /-- an account (a slot) whose warming is journaled in `es` is warm now -/
   warmedA : ∀ b, Entry.accountWarmed b ∈ es → (absT db s').warm b = true
   warmedS : ∀ b k, Entry.storageWarmed b k ∈ es → ((absT db s').slot b k).warm = true
+  /-- no entry of the state map is removed, and the new journal entries refer to present entries -/
+  grows : Grows s s'
+  refs : ∀ e, e ∈ es → refsOk s' e
 
 
 theorem Pushes.refl (db : Db) (s : JState) : Pushes db s s [] :=
   ⟨fun _ _ h => by simpa using h, rfl, rfl, rfl, rfl, fun _ h => by simp at h, id,
-   fun _ h => by simp at h, fun _ _ h => by simp at h⟩
+   fun _ h => by simp at h, fun _ _ h => by simp at h, Grows.refl _, fun _ h => by simp at h⟩
 
 theorem Pushes.trans {db : Db} {s s1 s2 : JState} {es1 es2 : List Entry}
     (h1 : Pushes db s s1 es1) (h2 : Pushes db s1 s2 es2) : Pushes db s s2 (es2 ++ es1) := by
   refine ⟨fun top rest h => ?_, h2.spec.trans h1.spec, h2.pre.trans h1.pre, h2.logs.trans h1.logs, ?_, ?_,
-    fun h => h2.bal (h1.bal h), ?_, ?_⟩
+    fun h => h2.bal (h1.bal h), ?_, ?_, Grows.trans h1.grows h2.grows, ?_⟩
   · rw [h2.journal _ _ (h1.journal _ _ h), List.append_assoc]
   · rw [undoTs_append, ← sdOf_eq h1.spec, h2.undo, sdOf_eq h1.spec, h1.undo]
   · intro a ha; rcases List.mem_append.1 ha with h | h
@@ -47,12 +50,16 @@ theorem Pushes.trans {db : Db} {s s1 s2 : JState} {es1 es2 : List Entry}
       cases hw : ((absT db s2).slot b k).warm
       · rw [hw] at e; simp at e
       · rfl
+  · intro e he; rcases List.mem_append.1 he with h | h
+    · exact h2.refs e h
+    · exact refsOk_mono h2.grows (h1.refs e h)
 
 /-- a step that is invisible in the observable state and in the journal -/
 theorem Pushes.silent {db : Db} {s s' : JState} (h1 : absT db s' = absT db s) (hj : s'.journal = s.journal)
-    (h2 : s'.spec = s.spec) (h3 : s'.preloaded = s.preloaded) (h4 : s'.logs = s.logs) : Pushes db s s' [] :=
+    (h2 : s'.spec = s.spec) (h3 : s'.preloaded = s.preloaded) (h4 : s'.logs = s.logs) (hg : Grows s s') :
+    Pushes db s s' [] :=
   ⟨fun _ _ h => by simpa [hj] using h, h2, h3, h4, by simpa [undoTs] using h1, fun _ h => by simp at h,
-   fun h => by rw [h1]; exact h, fun _ h => by simp at h, fun _ _ h => by simp at h⟩
+   fun h => by rw [h1]; exact h, fun _ h => by simp at h, fun _ _ h => by simp at h, hg, fun _ h => by simp at h⟩
 
 structure PushedOn (s s' : JState) (e : Entry) : Prop where
   journal : ∀ top rest, s.journal = top :: rest → s'.journal = (e :: top) :: rest
@@ -80,11 +87,13 @@ theorem Pushes.of_push {db : Db} {s s1 s' : JState} {e : Entry} (hp : pushEntry 
     (hu : undoT (sdOf s) (absT db s1) e = absT db s)
     (hz : ∀ a, e = .accountCreated a → ∀ k, db.storage a k = 0)
     (hb : BalOk (absT db s) → BalOk (absT db s1))
+    (hg : Grows s s1) (hr : refsOk s1 e)
     (hwA : ∀ b, e = .accountWarmed b → (absT db s1).warm b = true := by intro b hb; cases hb)
     (hwS : ∀ b k, e = .storageWarmed b k → ((absT db s1).slot b k).warm = true := by intro b k hb; cases hb) :
     Pushes db s s' [e] := by
   have p := pushEntry_some hp
-  refine ⟨fun t r ht => ?_, p.spec.trans hspec, p.pre.trans hpre, p.logs.trans hlogs, ?_, ?_, ?_, ?_, ?_⟩
+  refine ⟨fun t r ht => ?_, p.spec.trans hspec, p.pre.trans hpre, p.logs.trans hlogs, ?_, ?_, ?_, ?_, ?_,
+    Grows.congr_right p.state hg, fun e' he' => by simp at he'; subst he'; exact refsOk_congr p.state hr⟩
   · rw [p.journal t r (hj.trans ht)]; rfl
   · simp only [undoTs]; rw [p.absT db]; exact hu
   · intro a ha; simp at ha; exact hz a ha.symm
@@ -195,7 +204,7 @@ theorem loadAccount_pushes {db : Db} {s s' : JState} {a : Addr} {c : Bool}
       subst h2 h3
       refine ⟨?_, ?_, ?_⟩
       · refine Pushes.of_push h1 rfl rfl rfl rfl ?_ (by simp) ?_
-          (by intro b hb; cases hb; simp [absT_setAcct, putA, absOf])
+          (by intro b hb; cases hb; simp [absT_setAcct, putA, absOf]) (hg := Grows.upd hs rfl) (hr := by simp [refsOk, setAcct_state_same, setSlot])
         · simp [undoTs, absT_setAcct, putA, undoT, absOf, upd_upd_same, ha, upd_self', absSlot_some, hc]
         · simp [BalOk, absT_setAcct, putA, absOf, ha, upd_self']
       · simp [ha, absOf, hc]
@@ -205,7 +214,7 @@ theorem loadAccount_pushes {db : Db} {s s' : JState} {a : Addr} {c : Bool}
       obtain ⟨h2, h3⟩ := h
       subst h2 h3
       refine ⟨?_, ?_, ?_⟩
-      · refine Pushes.silent ?_ rfl rfl rfl rfl
+      · refine Pushes.silent ?_ rfl rfl rfl rfl (Grows.upd hs rfl)
         simp [undoTs, absT_setAcct, putA, undoT, absOf, upd_upd_same, ha, upd_self', absSlot_some, hc]
       · simp [ha, absOf, hc]
       · simp [setAcct_state_same]
@@ -220,7 +229,7 @@ theorem loadAccount_pushes {db : Db} {s s' : JState} {a : Addr} {c : Bool}
       refine ⟨?_, ?_, ?_⟩
       · refine Pushes.of_push h1 rfl rfl rfl rfl ?_ (by simp) ?_
           (by intro b hb; cases hb; cases hd : db.basic a <;>
-                simp [absT_setAcct, putA, absOf, Acct.ofInfo, Acct.newNotExisting])
+                simp [absT_setAcct, putA, absOf, Acct.ofInfo, Acct.newNotExisting]) (hg := Grows.ins hs) (hr := by simp [refsOk, setAcct_state_same, setSlot])
         · cases hd : db.basic a <;>
           simp [undoTs, absT_setAcct, putA, undoT, absOf, upd_upd_same, ha, upd_self', absSlot_some, hp, hd,
             Acct.ofInfo, Acct.newNotExisting, absSlot_none, maskT]
@@ -233,7 +242,7 @@ theorem loadAccount_pushes {db : Db} {s s' : JState} {a : Addr} {c : Bool}
       obtain ⟨h2, h3⟩ := h
       subst h2 h3
       refine ⟨?_, ?_, ?_⟩
-      · refine Pushes.silent ?_ rfl rfl rfl rfl
+      · refine Pushes.silent ?_ rfl rfl rfl rfl (Grows.ins hs)
         cases hd : db.basic a <;>
           simp [undoTs, absT_setAcct, putA, undoT, absOf, upd_upd_same, ha, upd_self', absSlot_some, hp, hd,
             Acct.ofInfo, Acct.newNotExisting, absSlot_none, maskT]
@@ -274,7 +283,8 @@ theorem touchAccount_pushes {db : Db} {s s' : JState} {a : Addr} {acc acc' : Acc
         rw [← e]; simp [absT_setAcct, putA, absOf, ha2, upd_self', esd, p.pre]
       refine ⟨?_, by simp [setAcct_state_same], rfl, fun b hb => by rw [setAcct_state_ne _ _ hb, p.state], hE⟩
       refine ⟨fun t r hj => by simp [p.journal t r hj], by simp [p.spec], by simp [p.pre], by simp [p.logs], ?_, by simp, BalOk.of_eq hE,
-        by simp, by simp⟩
+        by simp, by simp, Grows.trans (Grows.of_state_eq p.state) (Grows.upd hs1 rfl),
+        fun e he => by simp at he; subst he; simp [refsOk, setAcct_state_same]⟩
       rw [← e]
       simp [undoTs, absT_setAcct, putA, undoT, absOf, upd_upd_same, ha2, upd_self', absSlot_some, ht, esd, p.pre, unT_maskT]
 
@@ -286,12 +296,15 @@ theorem Pushes.of_push_set {db : Db} {s s1 : JState} {a : Addr} {acc' : Acct} {e
     (hu : undoT (sdOf s) (absT db (setAcct s a acc')) e = absT db s)
     (hz : ∀ a, e = .accountCreated a → ∀ k, db.storage a k = 0)
     (hb : BalOk (absT db s) → BalOk (absT db (setAcct s a acc')))
+    (hg : Grows s (setAcct s a acc')) (hr : refsOk (setAcct s a acc') e)
     (hnA : ∀ b, ¬ e = .accountWarmed b := by intro b hb; cases hb)
     (hnS : ∀ b k, ¬ e = .storageWarmed b k := by intro b k hb; cases hb) : Pushes db s (setAcct s1 a acc') [e] := by
   have p := pushEntry_some hp
   have e1 : absT db (setAcct s1 a acc') = absT db (setAcct s a acc') :=
     absT_congr db (by simp [setAcct, p.state]) p.spec p.pre p.transient
-  refine ⟨fun t r ht => ?_, p.spec, p.pre, p.logs, ?_, ?_, ?_, ?_, ?_⟩
+  have est : (setAcct s1 a acc').state = (setAcct s a acc').state := by simp [setAcct, p.state]
+  refine ⟨fun t r ht => ?_, p.spec, p.pre, p.logs, ?_, ?_, ?_, ?_, ?_,
+    Grows.congr_right est hg, fun e' he' => by simp at he'; subst he'; exact refsOk_congr est hr⟩
   · simp [p.journal t r ht]
   · simp only [undoTs]; rw [e1]; exact hu
   · intro a ha; simp at ha; exact hz a ha.symm
@@ -328,7 +341,8 @@ theorem loadCode_pushes {db : Db} {s s' : JState} {a : Addr} {c : Bool}
       · simp [hcode] at h; obtain ⟨h1, h2⟩ := h; subst h1 h2
         refine ⟨?_, hc, by simp [setAcct_state_same]⟩
         have := Pushes.trans p1 (Pushes.silent (db := db) (s := s1)
-          (s' := setAcct s1 a { acc with info := { acc.info with code := some acc.info.codeHash } }) ?_ rfl rfl rfl rfl)
+          (s' := setAcct s1 a { acc with info := { acc.info with code := some acc.info.codeHash } }) ?_ rfl rfl rfl rfl
+          (Grows.upd hs rfl))
         · simpa using this
         · simp [absT_setAcct, putA, absOf, ha, upd_self', absSlot_some]
       · simp [hcode] at h; obtain ⟨h1, h2⟩ := h; subst h1 h2
@@ -355,7 +369,7 @@ theorem incNonce_pushes {db : Db} {s s' : JState} {a : Addr} {r : Option Nat}
         | some s2 =>
           simp [hp] at h; obtain ⟨h1, _⟩ := h; subst h1
           have ha := absAcct_some db s1 hs1
-          refine ⟨_, Pushes.trans p1 (Pushes.of_push_set hp ?_ (by simp) ?_),
+          refine ⟨_, Pushes.trans p1 (Pushes.of_push_set hp ?_ (by simp) ?_ (hg := Grows.upd hs1 rfl) (hr := by simp [refsOk, setAcct_state_same, setSlot])),
             NoWarm.append (NoWarm.single (fun _ h => by cases h) (fun _ _ h => by cases h)) (NoWarm.touched _ _)⟩
           · simp [absT_setAcct, putA, undoT, absOf, upd_upd_same, ha, upd_self', absSlot_some, decU64]
           · exact BalOk.of_eq (by simp [absT_setAcct, putA, absOf, ha, upd_self'])
@@ -380,7 +394,7 @@ theorem setCode_pushes {db : Db} {s s' : JState} {a : Addr} {hash : Nat}
         simp [hp] at h; subst h
         have ha := absAcct_some db s1 hs1
         have hk : acc1.info.codeHash = KECCAK_EMPTY := by rw [hacc1]; exact hadm acc hs
-        refine ⟨_, Pushes.trans p1 (Pushes.of_push_set hp ?_ (by simp) ?_),
+        refine ⟨_, Pushes.trans p1 (Pushes.of_push_set hp ?_ (by simp) ?_ (hg := Grows.upd hs1 rfl) (hr := by simp [refsOk, setAcct_state_same, setSlot])),
           NoWarm.append (NoWarm.single (fun _ h => by cases h) (fun _ _ h => by cases h)) (NoWarm.touched _ _)⟩
         · simp [absT_setAcct, putA, undoT, absOf, upd_upd_same, ha, upd_self', absSlot_some, hk]
         · exact BalOk.of_eq (by simp [absT_setAcct, putA, absOf, ha, upd_self'])
@@ -450,7 +464,7 @@ theorem sload_pushes {db : Db} {s s' : JState} {a : Addr} {k v : Nat} {c : Bool}
         obtain ⟨s1, h1, h2, h3, h4⟩ := h
         subst h2 h3 h4
         refine ⟨?_, ?_, ?_, ?_⟩
-        · refine Pushes.of_push h1 rfl rfl rfl rfl ?_ (by simp) ?_ (hwS := by
+        · refine Pushes.of_push h1 rfl rfl rfl rfl ?_ (by simp) ?_ (hg := Grows.slot' hs k _) (hr := by simp [refsOk, setAcct_state_same, setSlot]) (hwS := by
             intro b j hb; cases hb; simp [absT_setAcct, putA, absOf, absSlot_some, slotsOf_setSlot])
           · simp [absT_setAcct, putA, undoT, absOf, upd_upd_same, ha, upd_self', absSlot_some, slotsOf_setSlot,
               slotsOf_some db a acc.created hk, hc, updK_updK_same, updK_self]
@@ -463,7 +477,7 @@ theorem sload_pushes {db : Db} {s s' : JState} {a : Addr} {k v : Nat} {c : Bool}
         obtain ⟨h2, h3, h4⟩ := h
         subst h2 h3 h4
         refine ⟨?_, ?_, ?_, ?_⟩
-        · refine Pushes.silent ?_ rfl rfl rfl rfl
+        · refine Pushes.silent ?_ rfl rfl rfl rfl (Grows.slot' hs k _)
           simp [absT_setAcct, putA, undoT, absOf, upd_upd_same, ha, upd_self', absSlot_some, slotsOf_setSlot,
               slotsOf_some db a acc.created hk, hc, updK_updK_same, updK_self]
         · simp [ha, absOf, absSlot_some, slotsOf_some db a acc.created hk, hc]
@@ -474,7 +488,7 @@ theorem sload_pushes {db : Db} {s s' : JState} {a : Addr} {k v : Nat} {c : Bool}
       obtain ⟨s1, h1, h2, h3, h4⟩ := h
       subst h2 h3 h4
       refine ⟨?_, ?_, ?_, ?_⟩
-      · refine Pushes.of_push h1 rfl rfl rfl rfl ?_ (by simp) ?_ (hwS := by
+      · refine Pushes.of_push h1 rfl rfl rfl rfl ?_ (by simp) ?_ (hg := Grows.slot' hs k _) (hr := by simp [refsOk, setAcct_state_same, setSlot]) (hwS := by
             intro b j hb; cases hb; simp [absT_setAcct, putA, absOf, absSlot_some, slotsOf_setSlot])
         · simp [absT_setAcct, putA, undoT, absOf, upd_upd_same, ha, upd_self', absSlot_some, slotsOf_setSlot,
               slotsOf_none db a acc.created hk, updK_updK_same, updK_self]
@@ -505,7 +519,7 @@ theorem sstore_pushes {db : Db} {s s' : JState} {a : Addr} {k new o p n : Nat} {
       | some s2 =>
         simp [hp] at h; obtain ⟨h1, _, _, _, h5⟩ := h; subst h1 h5
         have p2 : Pushes db s1 (setAcct s2 a (setSlot acc k { sl with present := new })) [.storageChanged a k v] := by
-          refine Pushes.of_push_set hp ?_ (by simp) ?_
+          refine Pushes.of_push_set hp ?_ (by simp) ?_ (hg := Grows.slot' hs1 k _) (hr := by simp [refsOk, setAcct_state_same, setSlot])
           · simp [absT_setAcct, putA, undoT, absOf, upd_upd_same, ha, upd_self', absSlot_some, slotsOf_setSlot,
                 slotsOf_some db a acc.created hk, updK_updK_same, updK_self, hpres]
           · exact BalOk.of_eq (by simp [absT_setAcct, putA, absOf, ha, upd_self'])
@@ -527,7 +541,8 @@ theorem tstore_pushes {db : Db} {s s' : JState} {a : Addr} {k new : Nat}
     | none => simp [ht] at h; subst h; exact ⟨[], Pushes.refl db s, NoWarm.nil⟩
     | some had =>
       simp [ht] at h
-      refine ⟨_, Pushes.of_push h rfl rfl rfl rfl ?_ (by simp) (BalOk.of_eq (by simp [absT_setTransient])),
+      refine ⟨_, Pushes.of_push h rfl rfl rfl rfl ?_ (by simp) (BalOk.of_eq (by simp [absT_setTransient]))
+          (hg := Grows.of_state_eq rfl) (hr := trivial),
         NoWarm.single (fun _ h => by cases h) (fun _ _ h => by cases h)⟩
       simp only [undoT, absT_setTransient]
       apply AState.ext' <;> try rfl
@@ -537,14 +552,15 @@ theorem tstore_pushes {db : Db} {s s' : JState} {a : Addr} {k new : Nat}
   · simp [hn] at h
     by_cases hpv : (s.transient a k).getD 0 = new
     · simp [hpv] at h; subst h
-      refine ⟨[], Pushes.silent ?_ rfl rfl rfl rfl, NoWarm.nil⟩
+      refine ⟨[], Pushes.silent ?_ rfl rfl rfl rfl (Grows.of_state_eq rfl), NoWarm.nil⟩
       rw [absT_setTransient]
       apply AState.ext' <;> try rfl
       funext b j; by_cases hb : b = a ∧ j = k
       · obtain ⟨rfl, rfl⟩ := hb; simp [absT_tr, tload, hpv]
       · simp [absT_tr, hb]
     · simp [hpv] at h
-      refine ⟨_, Pushes.of_push h rfl rfl rfl rfl ?_ (by simp) (BalOk.of_eq (by simp [absT_setTransient])),
+      refine ⟨_, Pushes.of_push h rfl rfl rfl rfl ?_ (by simp) (BalOk.of_eq (by simp [absT_setTransient]))
+          (hg := Grows.of_state_eq rfl) (hr := trivial),
         NoWarm.single (fun _ h => by cases h) (fun _ _ h => by cases h)⟩
       simp only [undoT, absT_setTransient]
       apply AState.ext' <;> try rfl
